@@ -79,7 +79,7 @@ def check_schema_table(h, schema):
         row = lambda a, nm, der, red: (nm, a.base, "1" if a.optional else "0", der, red, "REF" if a.type_ref else a.base)
         # positions (a redeclared one is flagged derived: the writer prints `*` there), then the redefining attributes the
         # class carries for its redeclarations, then the entity's own attributes
-        exp = ([row(a, a.name, "1" if a.redef_name else "0", "0") for a in inherited] +
+        exp = ([row(a, a.name, "1" if (a.redef_name or a.derived) else "0", "0") for a in inherited] +
                [row(a, a.redef_name, "0", "1") for a in inherited if a.redef_name and a.redef_name.split(".")[0] == e_.supertype
                 or a.redef_name and any(a.name == na.name for _, na in e_.redecl)] +
                [row(a, a.name, "0", "0") for a in own])
@@ -106,13 +106,15 @@ def model_inst(schema, inst, miss=None):
             v = inst.parts[pi][1][ai]
             if miss and miss[0] == pi and miss[1] == ai:
                 t = "M1" if miss[2] else "M0"
+            elif v[0] == "derived":
+                t = "ST"
             elif v[0] == "null":
                 t = "M1"
             elif v[0] == "empty":
                 t = "M0"
             else:
                 t = "LNULL"
-            ws.append(f"{a.base}:{1 if a.optional else 0}:0:{1 if a.type_ref else 0}:{t}")
+            ws.append(f"{a.base}:{1 if a.optional else 0}:{1 if a.derived else 0}:{1 if a.type_ref else 0}:{1 if a.redef_name else 0}:{t}")
         parts.append(" ".join(ws))
     return ("X " + " ; ".join(parts)) if inst.is_complex else ("S " + parts[0])
 
@@ -196,6 +198,19 @@ def written_value(obs, inst, pi, ai):
     return None
 
 
+def memory_value(h, idx, attr_name):
+    """asStr() of attribute `attr_name` of instance idx as the session holds it (harness `vals`), as a value tuple"""
+    r = h.cmd(f"vals {idx}")
+    for w in r.split()[2:]:
+        if w == "|" or w.count("/") < 2:
+            continue
+        nm, _, hx_ = w.rsplit("/", 2)
+        if nm == attr_name:
+            t = "" if hx_ == "-" else bytes.fromhex(hx_).decode("latin-1").strip()
+            return ("null",) if t in ("", "$") else ("tok", t)
+    return None
+
+
 def oracle(base, optional, strict, obs, idx, exit_thr, value, dollar=True):
     """C15's statement on one observation; returns None or what is wrong.
     dollar=True: the value is `$` (the statement's quantifier); dollar=False: no value at all before the delimiter -
@@ -240,6 +255,8 @@ def oracle(base, optional, strict, obs, idx, exit_thr, value, dollar=True):
 # classes recorded in KNOWN_FINDINGS.txt (repairs C15-3 / C15-4 were rejected by the shipped 258-test suite)
 K_NONHEAD = "complex:nonhead-part-error-dropped"
 K_ESCALATED = "complex:usermsg-escalated"
+K_REDECL = "redeclared:error-dropped"
+K_TRAILING = "redeclared:absent-trailing-value-unnoticed"
 
 
 def known_class(info, obs, idx, value):
@@ -247,6 +264,13 @@ def known_class(info, obs, idx, value):
     if info["optional"]:
         return None
     st = obs["states"][idx] if idx < len(obs["states"]) else "absent"
+    if (info.get("trailing_after_redefining") and not info["dollar"] and obs["sev"] == "NULL" and st == "completeSE"):
+        # SDAI_Application_instance::STEPread: the redefining attributes that precede the entity's own ones swallow the `)`,
+        # and the look-ahead loop that should report the missing values steps over every other attribute (`i++` twice)
+        return K_TRAILING
+    if info.get("redeclared") and obs["sev"] == "NULL" and st == "completeSE":
+        # STEPattribute::STEPread forwards to the redefining attribute and the instance never sees that attribute's error
+        return K_REDECL
     if info["shape"] == "complex-part" and obs["sev"] == "NULL" and st == "completeSE":
         # STEPcomplex::STEPread drops what every part but the first reports: the instance reads clean
         return K_NONHEAD
@@ -278,6 +302,8 @@ def decode_model(reply):
 def model_value(words):
     if words == "N":
         return ("null",)
+    if words == "D":
+        return ("derived",)
     if words.startswith("T"):
         return ("tok", "" if words[1:] == "-" else bytes.fromhex(words[1:]).decode("latin-1"))
     return ("?", words)
@@ -344,10 +370,18 @@ def run_schema(ctx, b, schema, pop, workdir, exe, p21read, model_exe, exit_thr, 
             ctx.hist("impl file severity", obs["sev"])
             ctx.hist("defined-type depth", str(a.depth))
             info = {"kind": a.base, "optional": a.optional, "strict": strict, "shape": shape, "dollar": dollar,
-                    "typeref": a.type_ref, "depth": a.depth,
+                    "typeref": a.type_ref, "depth": a.depth, "redeclared": bool(a.redef_name), "derived_position": a.derived,
+                    "trailing_after_redefining": (not pop[idx].is_complex and ai == len(pop[idx].parts[pi][1]) - 1
+                                                  and any(x.redef_name for x in G.part_attrs(schema, pop[idx], pi))),
                     "pop": m, "idx": idx, "pi": pi, "ai": ai, "attr": a.name}
             fval = file_value(obs, m[idx], pi, ai)
-            e = oracle(a.base, a.optional, strict, obs, idx, exit_thr, fval if fval is not None else val, dollar)
+            if a.redef_name:
+                # the writer prints `*` at a redeclared position: the value lives in the redefining attribute (in memory)
+                val = fval = memory_value(h, idx, a.redef_name)
+            ctx.hist("position", "DERIVEd" if a.derived else "redeclared" if a.redef_name else "plain")
+            # a DERIVEd position is not an attribute value of the file (the statement's `$` substitution does not apply):
+            # correspondence only
+            e = None if a.derived else oracle(a.base, a.optional, strict, obs, idx, exit_thr, fval if fval is not None else val, dollar)
             if e:
                 kc = known_class(info, obs, idx, val)
                 info["known_class"] = kc
@@ -355,6 +389,8 @@ def run_schema(ctx, b, schema, pop, workdir, exe, p21read, model_exe, exit_thr, 
                 if kc is None:
                     continue
                 ctx.hist("recorded defect class hit", kc)
+                if kc == K_TRAILING:
+                    continue      # the interleaving of redefining attributes in the instance's read loop is not modelled
                 # a recorded defect: the model follows the code, so the correspondence below is still demanded
             # the real p21read on a sample: one file per class
             subst_class = (not a.optional and not strict and dollar and a.base in SUBST)
@@ -378,6 +414,8 @@ def run_schema(ctx, b, schema, pop, workdir, exe, p21read, model_exe, exit_thr, 
                     if wv[0] != "tok" or not G.tok_equal(wv[1], SUBST[a.base]):
                         problems["property"].append((info, f"p21read wrote {wv!r} for the substituted {a.base}, expected {SUBST[a.base]}"))
                         continue
+            if info["trailing_after_redefining"] and not dollar:
+                continue      # (see K_TRAILING) the read loop's handling of redefining attributes is not modelled
             # correspondence with the model
             mm = decode_model(mout[2 + k])
             if mm is None:
